@@ -457,21 +457,26 @@ class Stdlib:
         c = cur()
         length = it.length()
         nonempty = ops_cmp('>', length, 0)
+        frame.loop_ordinal += 1            # comprehensions over symbolic ranges count as loops for the sidecar annotations
+        annot = I.loop_annots.get((frame.f.key, frame.loop_ordinal)) or loops.IndependentWrites(witness=None)
         if nonempty is False or (nonempty is not True and not c.decide(zbool(nonempty))):
             return []
-        kz = c.fresh_int('Ck')
-        c.assume_raw(z3.And(kz >= 0, kz < zint(length)))
-        c.nonneg_ids.add(kz.get_id())
+        if isinstance(it.step, int) and it.step == 1:
+            length = ops_binop('-', it.stop, it.start)
+        vars_, k = annot.generic_index(c, frame, length, f'{frame.f.qualname}#{frame.loop_ordinal}(comprehension)')
         c.counter += 1
-        fam = loops.Family(loops.IndependentWrites(witness=None), [loops.LoopVar(kz, length, 'comprehension')], c.counter, dict(frame.env), frame.f.qualname)
+        fam = loops.Family(annot, vars_, c.counter, dict(frame.env), frame.f.qualname)
         c.family.append(fam)
         try:
             sub = Frame(I, frame.f, dict(frame.env))
-            sub.assign(g.target, it.item(SInt(kz)))
+            sub.assign(g.target, it.item(k))
             val = sub.eval(n.elt)
         finally:
             c.family.pop()
-        return SymSeq(length, lambda j, val=val, kz=kz: loops.subst(val, [(kz, zint(j))]))
+        kzs = [v.z for v in vars_]
+        if len(kzs) == 1:
+            return SymSeq(length, lambda j, val=val, kz=kzs[0]: loops.subst(val, [(kz, zint(j))]))
+        return SymSeq(length, lambda j, val=val: val)
 
     # ------------------------------------------------------------------ calls
     def call_ext(self, I, dotted, args, kwargs, node):
